@@ -633,6 +633,42 @@ pub fn forced_cancellation(acc: &Acc, multi: bool, n: u16, tick: u32, p_cancel: 
     }
 }
 
+/// Unusual but legal call pattern: `update` called twice in a row with no step in between (orders tracked by
+/// the agents are then still New), and a step without any update. Judged for "never aborts" and for the
+/// per-order validity clauses of every update call on its own.
+pub fn double_update(acc: &Acc, multi: bool, c: &AgentCfg, start: StartBook, seed: u64) {
+    acc.execs.fetch_add(1, Ordering::Relaxed);
+    let replay = json!({"engine": "agentsx", "scenario": "update, update, step, step, update, update, step", "multi_asset": multi, "agent": format!("{:?}", c), "start_book": format!("{:?}", start), "fallback_seed": seed});
+    let mut w = match util::subject(|| World::new(multi, c, start, 500)) {
+        Ok(w) => w,
+        Err(m) => {
+            acc.fail(format!("agents/abort/setup/{}", util::panic_sig(&m)), m, replay);
+            return;
+        }
+    };
+    for (k, what) in ["update", "update", "step", "step", "update", "update", "step"].iter().enumerate() {
+        acc.rounds.fetch_add(1, Ordering::Relaxed);
+        let mut rng = ScriptRng::new(vec![], seed.wrapping_add(k as u64 * 131));
+        rng.budget = 200_000;
+        let before = w.orders();
+        let res = util::subject(|| if *what == "update" { w.update(&mut rng) } else { w.step(&mut rng) });
+        if let Err(m) = res {
+            acc.fail(format!("agents/abort/{}/{}", kind(c), util::panic_sig(&m)), format!("{} aborted in call #{} ({}) of update, update, step, step, update, update, step: {}", kind(c), k, what, m), replay);
+            return;
+        }
+        if *what == "update" {
+            let after = w.orders();
+            let traders = c.traders();
+            for o in &after[before.len()..] {
+                if o.status != NEW || !traders.contains(&o.trader) || (!is_market(o) && o.price % c.tick() != 0) {
+                    acc.fail(format!("agents/{}/invalid-order-in-repeated-update", kind(c)), format!("call #{}: {:?}", k, o), replay);
+                    return;
+                }
+            }
+        }
+    }
+}
+
 pub fn kind(c: &AgentCfg) -> &'static str {
     match c {
         AgentCfg::Random { .. } => "random",
@@ -878,6 +914,21 @@ pub fn c16(tier: &str) -> i32 {
                                     scripts[round] = d.clone();
                                     run_scripted_opt(acc, multi, c, start, &scripts, seed, true);
                                 }
+                            }
+                        }
+                    });
+                }
+            }
+        });
+        // the same configurations with update called twice in a row and steps without an update
+        std::thread::scope(|sc| {
+            for multi in [false, true] {
+                for c in &pf_cfgs {
+                    let acc = &acc;
+                    sc.spawn(move || {
+                        for start in [StartBook::Empty, StartBook::TwoSided] {
+                            for seed in 0..4u64 {
+                                double_update(acc, multi, c, start, seed);
                             }
                         }
                     });
